@@ -37,6 +37,8 @@ Definition sneedc (g : stage) (c : nat -> bool) : nat -> nat :=
   | GPad l _ => one_src c (need_pad l)
   | GBlocks size hop => one_src c (need_blocks size hop)
   | GBatched n => one_src c (need_blocks n n)
+  | GResampleTV order old new =>
+      need_resample_tv c (rs_n0 order) (rs_idx0 order new) (rs_thr order new) (rs_stp old) (rs_one new)
   | GTee n sched => one_src c (need_tee n sched)
   | GOla _ hop _ => one_src c (need_ola hop)
   | GResample order old new =>
